@@ -77,20 +77,22 @@ class C17(Prop):
         if sp["kind"] == "box":
             lo, hi = float(Fraction(sp["low"])), float(Fraction(sp["high"]))
             n = len(sp["keys"])
-            kind = rng.choice(["short", "long", "above-ulp", "below-ulp", "far", "nan", "index", "junk"])
+            kind = rng.choice(["short", "long", "above-ulp", "below-ulp", "far", "nan", "nan", "index", "junk"])
             base = [fr(F(lo + (hi - lo) / 2))] * n
+            # a bad entry in the *cash* slot is the sneaky one: the allocation ignores that slot
+            pick = (lambda: sp["keys"].index("USD")) if "USD" in sp["keys"] and rng.random() < 0.6 else (lambda: rng.randrange(n))
             if kind == "short":
                 return ["step", base[:-1]] if n > 1 else ["stepj", "none"]
             if kind == "long":
                 return ["step", base + [base[0]]]
             if kind == "above-ulp":
-                v = list(base); v[rng.randrange(n)] = fr(F(math.nextafter(hi, math.inf))); return ["step", v]
+                v = list(base); v[pick()] = fr(F(math.nextafter(hi, math.inf))); return ["step", v]
             if kind == "below-ulp":
-                v = list(base); v[rng.randrange(n)] = fr(F(math.nextafter(lo, -math.inf))); return ["step", v]
+                v = list(base); v[pick()] = fr(F(math.nextafter(lo, -math.inf))); return ["step", v]
             if kind == "far":
-                v = list(base); v[rng.randrange(n)] = fr(F(hi + 10)); return ["step", v]
+                v = list(base); v[pick()] = fr(F(hi + 10)); return ["step", v]
             if kind == "nan":
-                v = list(base); v[rng.randrange(n)] = "nan"; return ["step", v]
+                v = list(base); v[pick()] = "nan"; return ["step", v]
             if kind == "index":
                 return ["stepi", 0]
             return ["stepj", rng.choice(["str", "none", "nested", "2d", "bigarr"])]
